@@ -908,7 +908,7 @@ func (v *View) checkC10(res *Result) {
 			continue
 		}
 		io := v.instSpec(inc.Inst)
-		if !(is.Priority > io.Priority) || st.CallVT-inc.UpVT < io.H {
+		if !(is.Priority > io.Priority) || st.CallVT-inc.UpVT < io.H || st.CallVT < v.Spec.PromptAfter {
 			continue
 		}
 		dl := st.RetVT + 3*io.H
@@ -968,7 +968,7 @@ func (v *View) checkC10(res *Result) {
 					st = nil
 				}
 			}
-			if st == nil || t.UpVT-st.RetVT < is.H {
+			if st == nil || t.UpVT-st.RetVT < is.H || t.UpVT < v.Spec.PromptAfter {
 				continue
 			}
 			dl := t.UpVT + 3*io.H
@@ -1184,6 +1184,15 @@ func (v *View) checkC11(res *Result) {
 				res.viol("C11", "grace-early", "connection-loss-demotion-without-disconnect", is.Name+" demoted for connection loss without a disconnect notification", t.Down)
 			} else if t.DownVT < last.vt+G {
 				res.viol("C11", "grace-early", "demoted-before-grace-elapsed", fmt.Sprintf("%s demoted for connection loss at %v, latest disconnect at %v, grace %v", is.Name, t.DownVT, last.vt, G), t.Down)
+			} else {
+				// ... and not at all if a reconnect notification arrived after that disconnect
+				// (handled completely before the expiry handler decided)
+				for k := range notes {
+					if notes[k].kind == "R" && notes[k].idx > last.idx && notes[k].ret >= 0 && notes[k].ret < decision {
+						res.viol("C11", "grace-after-reconnect", "demoted-for-connection-loss-after-reconnect", fmt.Sprintf("%s demoted for connection loss at %v although a reconnect notification (%v) followed the latest disconnect (%v)", is.Name, t.DownVT, notes[k].vt, last.vt), t.Down)
+						break
+					}
+				}
 			}
 		}
 		// (b) leader at the latest D, nothing else happens within G => demoted at D+G with callback
